@@ -1,0 +1,32 @@
+//go:build verif
+
+package openapi3filter
+
+// Contracts for request-body gatekeeping (C06) and body restoration (C13). Comment-only; read by
+// /verif/engine (govc). Decoding and the schema verdict are abstract (defined by decodeBody and
+// Schema.VisitJSON); the bytes of a body are ghost state (rdContent, trusted io/bytes contracts).
+
+//@ spec hasBody(in *RequestValidationInput) bool := in.Request.Body != nil && typeof(in.Request.Body) != type http.noBody
+//@ spec bodyLen(in *RequestValidationInput) int := hasBody(in) ? len(rdContent[ptr(in.Request.Body)]) : 0
+//@ spec bodyCT(in *RequestValidationInput) string := headerGet(in.Request.Header, headerCT)
+
+//@ extend func ValidateRequestBody
+//@   assuming input != nil && input.Request != nil && requestBody != nil
+//@   assuming input.Request.GetBody == nil
+//@   ensures @C06 [missing-required-body] old(bodyLen(input)) == 0 ==> ((result == nil) <==> !old(requestBody.Required))
+//@   ensures @C06 [no-declared-content] old(bodyLen(input)) > 0 && old(len(requestBody.Content)) == 0 ==> result == nil
+//@   ensures @C06 [undeclared-content-type] old(bodyLen(input)) > 0 && old(len(requestBody.Content)) > 0 && lookup(old(requestBody.Content), old(bodyCT(input))) == nil ==> result != nil
+//@   ensures @C06 [no-schema] old(bodyLen(input)) > 0 && old(len(requestBody.Content)) > 0 && lookup(old(requestBody.Content), old(bodyCT(input))) != nil && old(lookup(requestBody.Content, bodyCT(input)).Schema) == nil ==> result == nil
+//@   ensures @C06 [schema-check] result == nil && old(bodyLen(input)) > 0 && old(len(requestBody.Content)) > 0 && lookup(old(requestBody.Content), old(bodyCT(input))) != nil && old(lookup(requestBody.Content, bodyCT(input)).Schema) != nil ==> bodyDecodesOK(old(lookup(requestBody.Content, bodyCT(input)).Schema)) && visitOK(old(lookup(requestBody.Content, bodyCT(input)).Schema.Value), bodyValue(old(lookup(requestBody.Content, bodyCT(input)).Schema)))
+//@   option safety-tags C10
+//@   tag C06
+
+//@ func encodeBody
+//@   modifies *
+//@   preserves all(openapi3), RequestValidationInput.*, Options.*, http.Request.Header, http.Request.Method
+
+//@ spec bodyDecodesOK(s *openapi3.SchemaRef) bool
+//@ spec bodyValue(s *openapi3.SchemaRef) any
+//@ extend func decodeBody
+//@   defines (result.2 == nil) == bodyDecodesOK(schema)
+//@   defines result.1 == bodyValue(schema)
